@@ -18,6 +18,7 @@ import (
 	"google.golang.org/protobuf/types/known/timestamppb"
 
 	"go.6river.tech/mmmbbb/actions"
+	"go.6river.tech/mmmbbb/ent"
 	"go.6river.tech/mmmbbb/grpc/pubsubpb"
 	"go.6river.tech/mmmbbb/logging"
 	"go.6river.tech/mmmbbb/services"
@@ -40,6 +41,8 @@ type Runner struct {
 	// Bare: no harness queries and no separator pause after the call (used when
 	// the call runs as a scheduler thread)
 	Bare bool
+	// svcCtx: the context background services run under (the base of the current Exec)
+	svcCtx context.Context
 }
 
 func errCode(err error) string {
@@ -175,6 +178,7 @@ func (r *Runner) Exec(c model.Call) (o model.Obs) {
 		})
 		saved := r.Ctx
 		r.Ctx = ctx
+		r.svcCtx = base
 		o = r.exec(c)
 		r.Ctx = saved
 		r.W.SetBudget(0, nil)
@@ -490,7 +494,28 @@ func (r *Runner) exec(c model.Call) model.Obs {
 		if !ok {
 			panic("no job " + c.Op.Job)
 		}
-		o.N, err = j.Run(ctx, w.Client, actions.PruneCommonParams{MinAge: c.Op.MinAge, MaxDelete: c.Op.MaxDel})
+		// a maintenance job runs under its SERVICE's context, which outlives the tick
+		// (a request's context ends with the request, and database/sql then rolls back
+		// whatever transaction the code forgot - a service gets no such help)
+		sctx := ctx
+		if r.svcCtx != nil {
+			sctx = r.svcCtx
+		}
+		jctx, jcancel := context.WithCancel(sctx)
+		o.N, err = j.Run(jctx, w.Client, actions.PruneCommonParams{MinAge: c.Op.MinAge, MaxDelete: c.Op.MaxDel})
+		if err != nil {
+			// a failed tick must leave nothing behind: a write transaction right after it
+			// has to get through (the probe waits out SQLite's busy timeout if not)
+			noop := func(context.Context, *ent.Tx) error { return nil }
+			if perr := w.Client.DoCtxTx(context.Background(), nil, noop); perr != nil {
+				err = fmt.Errorf("%w; LOCK-LEFT: a write transaction right after the failed tick fails too: %v", err, perr)
+				// "restart the service" so that the exploration can go on: ending its context
+				// makes database/sql roll the forgotten transaction back
+				jcancel()
+				_ = w.Client.DoCtxTx(context.Background(), nil, noop)
+			}
+		}
+		jcancel()
 	case "tick":
 		w.TickTo(c.Time)
 	case "getTopic":
